@@ -150,7 +150,9 @@ def replay(rec, ctx):
     def get(i):
         if i not in obs:
             o = mk()
-            o.name = "n1"
+            n0 = (rec["h"][0].get("name0") or {}).get(str(i), "n1") if isinstance(rec["h"][0].get("name0"), dict) else (rec["h"][0].get("name0") or ["n1"] * i)[i - 1]
+            if n0 != "none":
+                o.name = n0
             obs[i] = o
             defaults[i] = {A: getattr(o, A), B: getattr(o, B)}
         return obs[i]
@@ -199,6 +201,8 @@ def replay(rec, ctx):
                 setattr(group, attr, _container([conc(attr, v) for v in e["vs"]], kind))
             elif op == "assign_names":
                 group.names = list(e["ns"])
+            elif op == "rename":
+                get(e["o"]).name = e["n"]
             elif op == "set_member":
                 setattr(get(e["o"]), amap[e["a"]], conc(amap[e["a"]], e["v"]))
             elif op == "observe":
@@ -241,7 +245,7 @@ def replay(rec, ctx):
         got_group = getattr(group, attr)
         if not (isinstance(got_group, list) and len(got_group) == len(want) and all(_eq(g, w) for g, w in zip(got_group, want))):
             bad(f"group-read-wrong.{'same' if key == 'a' else 'other'}-attr", f"{attr}: group reports {got_group!r}, spec {rec[key]}")
-    if list(group.names) != list(rec["names"]):
+    if ["none" if n is None else n for n in group.names] != list(rec["names"]):
         bad("names-differ", f"{group.names} vs {rec['names']}")
     for i, o in enumerate(members):
         if o.parent is not group:
@@ -276,6 +280,14 @@ def replay(rec, ctx):
             bad("ambiguous-name-accepted", n)
         except ValueError:
             pass
+    for n in rec.get("absent", []):
+        try:
+            group[n]
+            bad("absent-name-found", n)
+        except ValueError:
+            pass
+        except Exception as ex:           # noqa: BLE001
+            bad("absent-name-lookup-raised-" + type(ex).__name__, n)
     return viol
 
 
@@ -368,7 +380,7 @@ CFG = """SPECIFICATION Spec
 CONSTANTS
   Obs = {{1, 2, 3}}
   Vals = {{1, 2}}
-  Names = {{"n1", "n2"}}
+  Names = {{"n1", "n2", "none"}}
   Kinds = {{"list", "tuple", "ndarray"}}
   MaxHist = {maxhist}
 INVARIANT TypeOK
@@ -422,7 +434,7 @@ def run(v):
         k = r["h"][-1]["op"] + ("/" + r["outcome"] if r["outcome"] != "ok" else "")
         ops[k] = ops.get(k, 0) + 1
     for need in ("add", "add_wrong_type/rejected", "set_observers", "assign_scalar", "assign_seq", "assign_seq/ValueError",
-                 "assign_names", "assign_names/ValueError", "set_member", "observe", "caller_mutates_list"):
+                 "assign_names", "assign_names/ValueError", "set_member", "rename", "observe", "caller_mutates_list"):
         if not ops.get(need):
             raise core.MachineryError(f"vacuity: action {need} never taken by TLC")
     v.notes["edges_per_action"] = ops
